@@ -324,6 +324,14 @@ class KernelS(KernelX):
             elif same_val(va, vb):
                 r.env[k] = va
             elif isinstance(va, Int) and isinstance(vb, Int):
+                # a clamp written with an if:  `if x > L: x = L`  joins to min(x, L)  (`if x < L: x = L` to max)
+                if c is not None and c.tf is not None and c.ff is not None and len(c.tf) == 1 and len(c.ff) == 1:
+                    if c.tf[0] == vb.lin - va.lin - 1 and c.ff[0] == va.lin - vb.lin:
+                        r.env[k] = Int(r.facts.minmax('min', vb.lin, va.lin))
+                        continue
+                    if c.tf[0] == va.lin - vb.lin - 1 and c.ff[0] == vb.lin - va.lin:
+                        r.env[k] = Int(r.facts.minmax('max', vb.lin, va.lin))
+                        continue
                 s = fresh(k)
                 if c is not None and c.tf is not None and c.ff is not None:
                     r.cases[s] = [(list(c.tf), va.lin), (list(c.ff), vb.lin)]
@@ -409,6 +417,19 @@ class KernelS(KernelX):
                     self.assign(e, self._iter_elem(self.ev(a, st, quiet=True)), head, s)
             else:
                 self.assign(tgt, self._iter_elem(src), head, s)
+            # iteration over the rows of an array has a hidden iteration number 0 <= v < len(array): counters are bounded by it
+            arr_it = src if isinstance(src, Arr) else (self.ev(it.args[0], st, quiet=True) if cn == 'enumerate' and it.args else None)
+            if counters and isinstance(arr_it, Arr) and not any(k.arg == 'start' for k in getattr(it, 'keywords', []) or []) and \
+                    not (cn == 'enumerate' and len(it.args) > 1):
+                d = arr_it.dim(0, head.facts)
+                if d is not None:
+                    v = Lin.sym(fresh('row'))
+                    head.facts.add_ge(v)
+                    head.facts.add_lt(v, d)
+                    for name, c0 in counters.items():
+                        cs = head.env[name].lin
+                        head.facts.add_ge(cs - c0)
+                        head.facts.add_le(cs, c0 + v)
         saved = self._loop_exits
         self._loop_exits = []
         self.exec_block(s.body, [head])
